@@ -299,3 +299,12 @@ case(C + "add3", params={"a": INT, "b": INT, "c": INT}, returns=INT, ensures={"v
      gen=lambda rng: {"a": rng.randint(0, 3), "b": rng.randint(1, 3), "c": rng.randint(0, 3)})
 case(C + "star_tuple", params={"t": Tuple(INT, INT)}, returns=INT, ensures={"v": "result == 1 + t[0] + t[1]"}, canaries={"w": "result == t[0] + t[1]"},
      gen=lambda rng: {"t": [rng.randint(0, 3), rng.randint(0, 3)]}, build=lambda d: {"t": tuple(d["t"])})
+
+# the filter of a SET comprehension guards the element expression too (KeyError of colors[n] under `if n in colors`)
+case(C + "neighbour_colors", params={"adj": Set(STR), "colors": D}, returns=Set(INT),
+     ensures={"img": "all(implies(n in colors, colors[n] in result) for n in adj)"}, canaries={"empty": "result == set()"},
+     gen=lambda rng: {"adj": rng.sample(["a", "b", "z"], rng.randint(0, 3)), "colors": sdict(rng)}, build=lambda d: {"adj": set(d["adj"]), "colors": d["colors"]})
+
+case(C + "starts_alpha", params={"key": STR}, returns=INT, requires=["len(key) > 0"],
+     ensures={"fn": "result == ite(key[0].isalpha(), 1, 0)"}, canaries={"one": "result == 1", "zero": "result == 0"},
+     gen=lambda rng: {"key": rng.choice(["a1", "1a", "_x", "Zz"])})
